@@ -134,6 +134,9 @@ func runTest(cfg *config.Config, pkgpath, runPattern string, appArgs ...string) 
 				continue
 			}
 
+			if i := strings.LastIndex(got, "\n"); i >= 0 && !strings.Contains(expect, "\n") {
+				got = got[i+1:] // the panic message is the last line; earlier output is not part of it
+			}
 			if !strings.HasPrefix(got, "panic: "+expect+" (") { // panic: ${expect} (pos)
 				fmt.Printf("---- %s.%s\n", prog.Manifest.MainPkg, t.Name)
 				fmt.Printf("    expect(panic) = %q, got = %q\n", expect, got)
@@ -241,6 +244,9 @@ func runTest(cfg *config.Config, pkgpath, runPattern string, appArgs ...string) 
 				continue
 			}
 
+			if i := strings.LastIndex(got, "\n"); i >= 0 && !strings.Contains(expect, "\n") {
+				got = got[i+1:] // the panic message is the last line; earlier output is not part of it
+			}
 			if !strings.HasPrefix(got, "panic: "+expect+" (") { // panic: ${expect} (pos)
 				fmt.Printf("---- %s.%s\n", prog.Manifest.MainPkg, t.Name)
 				fmt.Printf("    expect(panic) = %q, got = %q\n", expect, got)
